@@ -14,7 +14,7 @@ from vf.ref import respformat
 
 ID = "C03"
 BOUNDS = {
-    "quick": "17 requests x every {sync, awaitable} assignment of <=4 sites x every completion order of the awaitables (complete) x early-release deviations <=1; identity adversary: <=1 address reuse of a dead FieldDetails on all-awaitable and single-awaitable assignments",
+    "quick": "18 requests x every {sync, awaitable} assignment of <=4 sites x every completion order of the awaitables (complete) x early-release deviations <=1; identity adversary: <=1 address reuse of a dead FieldDetails on all-awaitable and single-awaitable assignments",
     "thorough": "early-release deviations <=2; <=2 address reuses",
 }
 RULE = (
@@ -25,6 +25,7 @@ RULE = (
     "mutation root fields strictly serial. distinct = distinct (request, event trace) schedules"
 )
 ASSUMPTIONS = [
+    "mutation seriality: invocation order always; 'previous subtree finished' whenever no resolver failed synchronously (after a synchronous error the executor abandons already started siblings by design)",
     "asyncio single-threaded semantics as implemented by BaseEventLoop; FIFO order of ready callbacks is kept, completion order and early releases are explored",
     "address reuse is modelled for the executor's FieldDetails objects only (identity adversary: module-level id shadow + creation hook, no source change); a freed object's address may be given to any later FieldDetails",
 ]
@@ -50,6 +51,7 @@ def make_requests():
         ("aiter_error", "S1", "{ a { peers { nn } kids { id } } }", [("aiter", "A.peers"), ("fielderr", "A.nn"), ("items", "A.kids")], {}),
         ("mutation", "S3", "mutation { first { v } second third { v nn } }", [("field", "Mutation.first"), ("field", "R.v"), ("field", "Mutation.second"), ("field", "Mutation.third")], {}),
         ("mutation_err", "S3", "mutation { first { nn } nn second }", [("fielderr", "R.nn"), ("field", "Mutation.first"), ("field", "Mutation.second"), ("fielderr", "Mutation.nn")], {}),
+        ("mutation_coro", "S3", "mutation { first { v nn } second third { v } }", [("coro", "R.v"), ("coroerr", "R.nn"), ("coro", "Mutation.second")], {}),
         ("memo", "S1", "{ a { id } an { id } n { id } as { id } u { ... on A { self { name } } ... on B { other { name } } } }", [("field", "Query.u"), ("field", "A.self"), ("field", "Query.n")], {}),
         ("list_in_await", "S1", "{ a { kids { name } nkids { name } } }", [("field", "Query.a"), ("field", "A.kids"), ("items", "A.nkids"), ("field", "B.name")], {}),
         ("item_error", "S1", "{ a { nkids { name ... on A { nn } } } }", [("items", "A.nkids"), ("fielderr", "A.nn"), ("field", "A.name"), ("field", "B.name")], {}),
@@ -160,12 +162,44 @@ class IdAdversary:
         return self.vid.get(id(o), id(o))
 
 
-def install(world, schema, objs, sites, mask, options):
+def install(world, schema, objs, sites, mask, options, calls=None):
     """Rewire data/schema so that the sites selected by mask are awaitable (gates)."""
     from graphql import GraphQLObjectType
 
     for bit, (kind, key) in enumerate(sites):
         is_async = bool(mask >> bit & 1)
+        if kind in ("coro", "coroerr"):
+            # coroutine resolvers with a life time: start ... (await the gate) ... cleanup that itself takes a loop iteration
+            tname, fname = key.split(".")
+            for variant in (0, 1):
+                d = objs[tname][variant]
+                orig = d[fname]
+                if kind == "coroerr" and variant == 1:
+                    continue
+                if is_async:
+                    def mkc(orig, err):
+                        def fn(path, args):
+                            import asyncio
+
+                            async def run():
+                                lab = ".".join(map(str, path))
+                                if calls is not None:
+                                    calls.append(("start", lab))
+                                try:
+                                    return await world.gate(lab + ("!" if err else ""), orig(path, args) if callable(orig) else orig,
+                                                            error=Boom("coroutine failure") if err else None)
+                                finally:
+                                    await asyncio.sleep(0)
+                                    if calls is not None:
+                                        calls.append(("end", lab))
+                            return run()
+                        return fn
+                    d[fname] = mkc(orig, kind == "coroerr")
+                elif kind == "coroerr":
+                    def boomc(path, args):
+                        raise Boom("sync failure")
+                    d[fname] = boomc
+            continue
         if kind in ("field", "fielderr", "items", "aiter"):
             tname, fname = key.split(".")
             for variant in (0, 1):
@@ -259,7 +293,7 @@ def sync_reference(req):
     # reference executor on plain data (fault = raising where fielderr sites are)
     roots2, objs2 = gdata.build(schema)
     for kind, k2 in sites:
-        if kind == "fielderr":
+        if kind in ("fielderr", "coroerr"):
             tname, fname = k2.split(".")
             def boom(path, args):
                 raise Boom("ref failure")
@@ -298,7 +332,10 @@ def run_request(req, mask, tier, res, only_choices=None, mode="sched"):
 
               def logged_gate(label, *a, **k):
                   calls.append(("open", label))
-                  return orig_gate(label, *a, **k)
+                  f = orig_gate(label, *a, **k)
+                  # a gate the library cancels is no longer pending work of its root field
+                  f.add_done_callback(lambda fut, label=label: calls.append(("release", label)) if fut.cancelled() else None)
+                  return f
 
               w.gate = logged_gate
               if options.get("no_typename"):
@@ -413,7 +450,15 @@ def run_request(req, mask, tier, res, only_choices=None, mode="sched"):
             # and nothing under an earlier root field is invoked afterwards
             order = []
             open_by_root = {}
+            alive = {}
+            # after a *synchronous* resolver error the executor abandons the sibling awaitables it had already started
+            # (settle_in_background, by design); pending work of the previous root field is then not demanded to be finished
+            sync_error = any(kd in ("coroerr", "fielderr") and not (mask >> bit & 1) for bit, (kd, _k) in enumerate(sites))
             for ev in calls:
+                if ev[0] in ("start", "end"):
+                    root = ev[1].split(".")[0]
+                    alive[root] = alive.get(root, 0) + (1 if ev[0] == "start" else -1)
+                    continue
                 if ev[0] in ("release", "open"):
                     lab = ev[1].rstrip("!")
                     root = lab.split(".")[0].split("[")[0].split("#")[0]
@@ -422,7 +467,10 @@ def run_request(req, mask, tier, res, only_choices=None, mode="sched"):
                 p = ev[0]
                 root = p[0]
                 if root not in order:
-                    for prev in order:
+                    for prev in ([] if sync_error else order):
+                        if alive.get(prev, 0) > 0:
+                            res.violation("mutation_not_serial", f"{label}: root field {root!r} invoked while a resolver coroutine under {prev!r} had not finished (cancelled work not awaited)", payload)
+                            return
                         if open_by_root.get(prev, 0) > 0:
                             res.violation("mutation_not_serial", f"{label}: root field {root!r} invoked while {prev!r} still had pending work", payload)
                             return
